@@ -46,7 +46,98 @@ pub enum Op {
     /// write_into (3), into_owned (4) - and the panic is caught.  Nothing of this builder is involved;
     /// whatever the library keeps process-wide (a scratch buffer behind a lock that is now poisoned)
     /// must not change what later operations produce.
+    /// (kinds 8..=12: the same five on THIS thread - the panic unwinds through the library's frames on
+    /// the thread that goes on using the builder, and is caught)
     Poison(u8),
+    /// an application attribute (type 0x9D00, eight bytes) whose serialisation builds, seals (0: SHA-1,
+    /// 1: SHA-256) and fingerprints an inner message of its own before it writes its value: the library
+    /// is re-entered on the same thread while the outer message is being serialised or sealed
+    Nested(u8),
+    /// an application attribute (type 0x9E00 + len) that writes its header and value and leaves the
+    /// padding bytes of the destination as they are (the destination `build()` hands out is zeroed)
+    CustomLazy(u16),
+    /// on this thread, before going on: an unrelated message full of 0xFF bytes is built, sealed with
+    /// both integrity attributes and fingerprinted (what the library keeps per thread from one message
+    /// must not show in the next)
+    Elsewhere(u8),
+}
+
+/// The application attribute of `Op::Nested`.
+#[derive(Debug)]
+pub struct NestAttr(pub u8);
+impl NestAttr {
+    pub const TYPE: u16 = 0x9D00;
+    pub const VALUE: &'static [u8; 8] = b"nested!!";
+    fn inner(&self) {
+        let creds: MessageIntegrityCredentials = ShortTermCredentials::new("inner".to_owned()).into();
+        let mut b = real::builder(1, 0x016, 0x1221);
+        let _ = b.add_raw_attribute(RawAttribute::new(AttributeType::new(0xC0FE), &[0xFF; 37]));
+        let _ = b.add_message_integrity(&creds, if self.0 == 0 { IntegrityAlgorithm::Sha1 } else { IntegrityAlgorithm::Sha256 });
+        let _ = b.add_fingerprint();
+        let _ = b.build();
+    }
+}
+impl Attribute for NestAttr {
+    fn get_type(&self) -> AttributeType {
+        AttributeType::new(Self::TYPE)
+    }
+    fn length(&self) -> u16 {
+        8
+    }
+}
+impl AttributeWrite for NestAttr {
+    fn to_raw(&self) -> RawAttribute {
+        self.inner();
+        RawAttribute::new(self.get_type(), Self::VALUE).into_owned()
+    }
+    fn write_into_unchecked(&self, dest: &mut [u8]) {
+        self.inner();
+        let offset = self.write_header_unchecked(dest);
+        dest[offset..offset + 8].copy_from_slice(Self::VALUE);
+    }
+}
+
+/// The application attribute of `Op::CustomLazy`.
+#[derive(Debug)]
+pub struct LazyAttr {
+    pub len: u16,
+}
+impl LazyAttr {
+    pub fn typ(len: u16) -> u16 {
+        0x9E00 + (len & 0xFF)
+    }
+}
+impl Attribute for LazyAttr {
+    fn get_type(&self) -> AttributeType {
+        AttributeType::new(Self::typ(self.len))
+    }
+    fn length(&self) -> u16 {
+        self.len
+    }
+}
+impl AttributeWrite for LazyAttr {
+    fn to_raw(&self) -> RawAttribute {
+        RawAttribute::new(self.get_type(), &AppAttr::value(self.len)).into_owned()
+    }
+    fn write_into_unchecked(&self, dest: &mut [u8]) {
+        let offset = self.write_header_unchecked(dest);
+        let v = AppAttr::value(self.len);
+        dest[offset..offset + v.len()].copy_from_slice(&v);
+    }
+}
+
+/// `Op::Elsewhere`: an unrelated message built, sealed and fingerprinted on this thread.
+pub fn elsewhere(kind: u8) {
+    let creds: MessageIntegrityCredentials = ShortTermCredentials::new("elsewhere".to_owned()).into();
+    let ff = vec![0xFF; 301 + kind as usize];
+    let mut b = real::builder(2, 0x003, 0xFFFF_FFFF_FFFF_FFFF_FFFF_FFFF);
+    let _ = b.add_raw_attribute(RawAttribute::new(AttributeType::new(0xFFFE), &ff));
+    let _ = b.build();
+    let _ = b.add_message_integrity(&creds, IntegrityAlgorithm::Sha1);
+    let _ = b.add_message_integrity(&creds, IntegrityAlgorithm::Sha256);
+    let _ = b.add_fingerprint();
+    let bytes = b.build();
+    let _ = Message::from_bytes(&bytes).map(|m| m.validate_integrity(&creds).is_ok());
 }
 
 /// An application attribute whose serialisation panics (`Op::Poison`).
@@ -71,7 +162,16 @@ impl AttributeWrite for PanicAttr {
 
 /// Runs the panicking serialisation of `Op::Poison(kind)` on a fresh thread and swallows the panic.
 pub fn poison(kind: u8) {
-    let _ = std::thread::Builder::new().stack_size(256 << 10).spawn(move || {
+    if kind >= 8 {
+        // on this thread: the panic unwinds through the library into the guard right here
+        poison_body(kind - 8);
+        return;
+    }
+    let _ = std::thread::Builder::new().stack_size(256 << 10).spawn(move || poison_body(kind)).map(|h| h.join());
+}
+
+fn poison_body(kind: u8) {
+    {
         let _ = crate::common::guarded(|| {
             let pa = PanicAttr;
             let creds: MessageIntegrityCredentials = ShortTermCredentials::new("poison".to_owned()).into();
@@ -97,7 +197,7 @@ pub fn poison(kind: u8) {
                 }
             }
         });
-    }).map(|h| h.join());
+    }
 }
 
 /// The application-defined attribute of `Op::Custom`.
@@ -197,6 +297,9 @@ impl Op {
             Op::AppMut(l) => format!("APPMUT:{l}"),
             Op::Mutate(l) => format!("MUTATE:{l}"),
             Op::Poison(k) => format!("POISON:{k}"),
+            Op::Nested(k) => format!("NESTED:{k}"),
+            Op::CustomLazy(l) => format!("LAZY:{l}"),
+            Op::Elsewhere(k) => format!("ELSEWHERE:{k}"),
         }
     }
     pub fn from_text(s: &str) -> Op {
@@ -217,6 +320,9 @@ impl Op {
             "APPMUT" => Op::AppMut(p[1].parse().unwrap()),
             "MUTATE" => Op::Mutate(p[1].parse().unwrap()),
             "POISON" => Op::Poison(p[1].parse().unwrap()),
+            "NESTED" => Op::Nested(p[1].parse().unwrap()),
+            "LAZY" => Op::CustomLazy(p[1].parse().unwrap()),
+            "ELSEWHERE" => Op::Elsewhere(p[1].parse().unwrap()),
             _ => panic!("harness: bad op text {s}"),
         }
     }
@@ -226,6 +332,8 @@ impl Op {
             Op::Raw(t, _) => Some(*t),
             Op::Custom(l) => Some(AppAttr::typ(*l)),
             Op::AppMut(_) => Some(MutAttr::TYPE),
+            Op::Nested(_) => Some(NestAttr::TYPE),
+            Op::CustomLazy(l) => Some(LazyAttr::typ(*l)),
             Op::Sha1(_) => Some(wire::MI),
             Op::Sha256(_) => Some(wire::MI256),
             Op::Fp => Some(wire::FP),
@@ -324,12 +432,20 @@ pub fn execute_tree(prog: &Prog, mut observe: impl FnMut(usize, &Result<(), WErr
     let creds: Vec<MessageIntegrityCredentials> = creds_alphabet().iter().map(real::creds).collect();
     let apps: Vec<Option<AppAttr>> = prog.ops.iter().map(|op| if let Op::Custom(len) = op { Some(AppAttr { len: *len }) } else { None }).collect();
     let mutattr = MutAttr::default();
+    let nests = [NestAttr(0), NestAttr(1)];
+    let lazies: Vec<Option<LazyAttr>> = prog.ops.iter().map(|op| if let Op::CustomLazy(len) = op { Some(LazyAttr { len: *len }) } else { None }).collect();
     let mut b = real::builder(prog.class, prog.method, prog.tid);
     let mut sib: Option<MessageBuilder> = None;
     for (i, op) in prog.ops.iter().enumerate() {
         let r: Result<(), WErr> = match op {
             Op::Typed(..) => b.add_attribute(arena[i].as_ref().unwrap().as_write()).map_err(WErr::from),
             Op::Custom(_) => b.add_attribute(apps[i].as_ref().unwrap()).map_err(WErr::from),
+            Op::Nested(k) => b.add_attribute(&nests[(*k % 2) as usize]).map_err(WErr::from),
+            Op::CustomLazy(_) => b.add_attribute(lazies[i].as_ref().unwrap()).map_err(WErr::from),
+            Op::Elsewhere(k) => {
+                elsewhere(*k);
+                Ok(())
+            }
             Op::Fork => {
                 sib = Some(b.clone());
                 Ok(())
@@ -488,6 +604,20 @@ impl RefBuilder {
                 self.attrs.push((AppAttr::typ(*l), AppAttr::value(*l)));
                 true
             }
+            Op::Nested(_) => {
+                if self.has(NestAttr::TYPE) || self.sealed() {
+                    return false;
+                }
+                self.attrs.push((NestAttr::TYPE, NestAttr::VALUE.to_vec()));
+                true
+            }
+            Op::CustomLazy(l) => {
+                if self.has(LazyAttr::typ(*l)) || self.sealed() {
+                    return false;
+                }
+                self.attrs.push((LazyAttr::typ(*l), AppAttr::value(*l)));
+                true
+            }
             Op::AppMut(l) => {
                 self.mutate(*l);
                 if self.has(MutAttr::TYPE) || self.sealed() {
@@ -541,7 +671,7 @@ impl RefBuilder {
                 self.attrs.push((wire::FP, buf[l - 4..].to_vec()));
                 true
             }
-            Op::Clone | Op::Measure | Op::CloneFrom(_) | Op::Poison(_) | Op::Fork | Op::Swap => true,
+            Op::Clone | Op::Measure | Op::CloneFrom(_) | Op::Poison(_) | Op::Fork | Op::Swap | Op::Elsewhere(_) => true,
         }
     }
     pub fn bytes(&self) -> Vec<u8> {
